@@ -297,8 +297,10 @@ var solvers = []solverSpec{
 	{"z3-5.1.0/arith2", func(f string, t, seed int) []string {
 		return []string{"z3-new", "-smt2", fmt.Sprintf("-T:%d", t), fmt.Sprintf("smt.random_seed=%d", seed), "smt.mbqi=false", "smt.auto_config=false", "smt.arith.solver=2", f}
 	}},
-	{"z3-5.1.0/mbqi", func(f string, t, seed int) []string {
-		return []string{"z3-new", "-smt2", fmt.Sprintf("-T:%d", t), fmt.Sprintf("smt.random_seed=%d", seed), f}
+	// default (MBQI) configuration: the older release only. z3 5.1.0 with its default configuration once answered
+	// unsat for a satisfiable batch (Set.Random, see DESIGN.md section 13), so it is not used for proofs.
+	{"z3-4.8.12/mbqi", func(f string, t, seed int) []string {
+		return []string{"/usr/bin/z3", "-smt2", fmt.Sprintf("-T:%d", t), fmt.Sprintf("smt.random_seed=%d", seed), f}
 	}},
 	{"cvc5-1.0.3", func(f string, t, seed int) []string {
 		return []string{"cvc5", fmt.Sprintf("--tlimit=%d", t*1000), fmt.Sprintf("--seed=%d", seed), "--lang=smt2", f}
@@ -333,6 +335,9 @@ func runPortfolio(smt string, timeoutS int, seed int, which []string, needAll bo
 	ch := make(chan one, len(solvers))
 	n := 0
 	for _, s := range solvers {
+		if skip := os.Getenv("GOVC_SKIP_SOLVER"); skip != "" && strings.Contains(s.name, skip) {
+			continue
+		}
 		if len(which) > 0 {
 			ok := false
 			for _, w := range which {
